@@ -40,6 +40,7 @@ package reference
 // ---- C08/C11: a typeless constraint is satisfied by typeless targets only, a typed constraint never by a
 // ---- typeless target (the same rule Target.Matches applies when the reference is resolved).
 //@ contract (reference.Target).IsConvertibleToType (ref, typ) (result)
+//@   assert before convert.Convert#1 : [C08,C11] arg0 == cty.UnknownVal(ref.Type) && arg1 == typ
 //@   ensures [C08,C11] implies(typ == cty.NilType, result == (ref.Type == cty.NilType))
 //@   ensures [C08,C11] implies(typ != cty.NilType && ref.Type == cty.NilType, !result)
 
@@ -55,3 +56,16 @@ package reference
 //@   loop 2 iter [C11] len(innermostTargets) >= 1
 //@   ensures [C11] ok == (len(result) > 0)
 //@   ensures [C11,name:result-is-the-accumulated-list] len(result) == len(innermostTargets) && implies(len(result) > 0, result[0] == innermostTargets[0])
+
+// ---- every element is examined: the loops below have no break and no return inside, i.e. they are left only
+// ---- when their range is exhausted (generated from the control-flow graph of the pinned tree with
+// ---- `govc loops`; tagged with the properties anchored in the function's file). An added early exit in a
+// ---- collecting loop silently drops the remaining elements.
+//@ loop-complete (reference.Origins).AtPos 1 C11
+//@ loop-complete (reference.Origins).Match 1 C11
+//@ loop-complete (reference.Origins).Match 2 C11
+//@ loop-complete (reference.Target).Matches 1 C08,C11
+//@ loop-complete (reference.Targets).InnermostAtPos 1 C08,C11
+//@ loop-complete (reference.Targets).InnermostAtPos 2 C08,C11
+//@ loop-complete (reference.Targets).MatchWalk 1 C08,C11
+//@ loop-complete (reference.Targets).OutermostInFile 1 C08,C11
